@@ -37,6 +37,10 @@ func LineOf(id int) int { return id % 1000 }
 // Options select generator behaviour.
 type Options struct {
 	Feature func(name string, num, den int) bool
+	// DeferPkgFunc allows `defer pkg.F()` of a function of an imported
+	// Scriggo package (feature "defer-pkg-func"), which the compiler does not
+	// implement: only the build-robustness check (C04) enables it.
+	DeferPkgFunc bool
 }
 
 type builder struct {
@@ -181,7 +185,7 @@ func (g *gen) call(b *builder, ind, fn int, prefix string) {
 		// `defer pkg.F()` of a Scriggo package function is not implemented
 		// by the compiler (Build panics with an internal error; a C04
 		// matter), so it is not generated here.
-		for j := 1; j <= g.nsub && prefix == ""; j++ {
+		for j := 1; j <= g.nsub && (prefix == "" || (g.o.DeferPkgFunc && g.feature("defer-pkg-func", 1, 2))); j++ {
 			targets = append(targets, fmt.Sprintf("sub1.S%d(%%d)", j))
 		}
 	} else {
